@@ -499,7 +499,12 @@ class Timeout(BaseException):
 
 class time_limit:
     """`with time_limit(3): call_real_code()` raises Timeout if the call does not return
-    (main thread only; used so that a non-terminating implementation is a finding, not a hang)."""
+    (main thread only; used so that a non-terminating implementation is a finding, not a hang).
+
+    The limit is on the CPU time this process consumes (ITIMER_PROF), not on the wall clock: on a loaded
+    machine a healthy call can be descheduled for many seconds, and a wall-clock limit would turn that into a
+    false 'does not return'.  A call that hangs without burning CPU (blocked, sleeping) is caught by a wall-clock
+    backstop of 20 x the limit (at least 60 s)."""
 
     def __init__(self, seconds: float):
         self.seconds = seconds
@@ -510,13 +515,17 @@ class time_limit:
     def __enter__(self):
         import signal
 
+        self.old_prof = signal.signal(signal.SIGPROF, self._raise)
         self.old = signal.signal(signal.SIGALRM, self._raise)
-        signal.setitimer(signal.ITIMER_REAL, self.seconds)
+        signal.setitimer(signal.ITIMER_PROF, self.seconds)
+        signal.setitimer(signal.ITIMER_REAL, max(60.0, 20.0 * self.seconds))
 
     def __exit__(self, *a):
         import signal
 
+        signal.setitimer(signal.ITIMER_PROF, 0)
         signal.setitimer(signal.ITIMER_REAL, 0)
+        signal.signal(signal.SIGPROF, self.old_prof)
         signal.signal(signal.SIGALRM, self.old)
         return False
 
